@@ -17,54 +17,95 @@
 (*        fix: a cut inside a multi-byte character raises)                 *)
 (*   StopTimerNeedsFloat      TRUE: stop_timer adds the raw header value   *)
 (*        (a non-numeric WBEMServerResponseTime raises TypeError)          *)
+(*   RecorderConversionPartial TRUE: TestClientRecorder.record() converts  *)
+(*        the staged arguments and the result with toyaml(), whose type    *)
+(*        dispatch ends in "raise TypeError" for every value type it does  *)
+(*        not list; FALSE: the conversion used by record() is total over   *)
+(*        the value types pywbem itself produces (ValueShapes of a reply)  *)
+(*        or is handed by its caller (ArgShapes)                           *)
+(*                                                                         *)
+(* Value universe of the conversion (what record() is given):              *)
+(*   ArgShapes  - shape of the operation's arguments                       *)
+(*     "listed"            str / CIM types / list / tuple / dict only      *)
+(*     "plain_float"       an ACCEPTED object holding a Python float (a    *)
+(*                         key binding given as float)                     *)
+(*     "iterable_not_list" an ACCEPTED documented "iterable" that is no    *)
+(*                         list/tuple (dict view, generator, set of pairs) *)
+(*     "rejected"          a value of a type the operation's own argument  *)
+(*                         validation rejects (set / generator / float /   *)
+(*                         arbitrary object where a name, list, bool, CIM  *)
+(*                         value is expected): the bare outcome is the     *)
+(*                         validation exception, raised before sending     *)
+(*   reply class "ok_untyped_real_key": a success whose parsed result      *)
+(*     holds a plain float (KEYVALUE VALUETYPE="numeric" without TYPE      *)
+(*     holding a real / INF is parsed into float, not Real32/Real64)       *)
 (***************************************************************************)
 EXTENDS Naturals, Sequences, FiniteSets, TLC
 
-CONSTANTS TruncateBytesThenDecode, StopTimerNeedsFloat
+CONSTANTS TruncateBytesThenDecode, StopTimerNeedsFloat,
+          RecorderConversionPartial
 
 Details == {"none", "all", "paths", "summary", "int"}
 Responses == {"ok_ascii", "ok_multibyte_cut_inside", "ok_multibyte_cut_between",
+              "ok_untyped_real_key",
               "cimerror", "parseerror", "httperror", "connerror"}
+ArgShapes == {"listed", "plain_float", "iterable_not_list", "rejected"}
 SrvTimes == {"absent", "numeric", "garbage"}
 
-VARIABLES cfg, resp, srvtime, pc, outcome, bareOutcome, counted, hookRaised
-vars == <<cfg, resp, srvtime, pc, outcome, bareOutcome, counted, hookRaised>>
+VARIABLES cfg, resp, srvtime, arg, pc, outcome, bareOutcome, counted, hookRaised
+vars == <<cfg, resp, srvtime, arg, pc, outcome, bareOutcome, counted,
+          hookRaised>>
 
-Core(r) == IF r \in {"ok_ascii", "ok_multibyte_cut_inside",
-                     "ok_multibyte_cut_between"} THEN "value"
-           ELSE r       \* the exception family of the response class
+Core(r, a) == IF a = "rejected" THEN "argerror"   \* local validation exception
+              ELSE IF r \in {"ok_ascii", "ok_multibyte_cut_inside",
+                             "ok_multibyte_cut_between", "ok_untyped_real_key"}
+                   THEN "value"
+              ELSE r       \* the exception family of the response class
+
+(* the types toyaml() lists *)
+ListedByToyaml(a) == a = "listed"
+ResultHoldsPlainFloat(r, a) == Core(r, a) = "value" /\ r = "ok_untyped_real_key"
 
 Hooks == <<"stage_pywbem_args", "start_timer", "stage_http_request",
            "stage_http_response1", "stage_http_response2", "stop_timer",
            "stage_pywbem_result">>
 
 (* can hook h raise under this configuration / response ? *)
-HookRaises(h, c, r, t) ==
+HookRaises(h, c, r, t, a) ==
   \/ /\ h = "stage_http_response2" /\ TruncateBytesThenDecode
      /\ c.http = "int" /\ r = "ok_multibyte_cut_inside"
   \/ /\ h = "stop_timer" /\ StopTimerNeedsFloat
-     /\ c.stats /\ t = "garbage" /\ r # "connerror"
-Reached(h, r) ==   \* hooks after the response are skipped on connection errors
-  ~(r = "connerror" /\ h \in {"stage_http_response1", "stage_http_response2"})
+     /\ c.stats /\ t = "garbage" /\ r # "connerror" /\ a # "rejected"
+  \* stage_pywbem_result -> record(): toyaml(arguments), toyaml(result)
+  \/ /\ h = "stage_pywbem_result" /\ RecorderConversionPartial /\ c.recorder
+     /\ (~ListedByToyaml(a) \/ ResultHoldsPlainFloat(r, a))
+Reached(h, r, a) ==
+  \* hooks after the response are skipped on connection errors; a rejected
+  \* argument leaves the try block before anything is sent (the finally
+  \* block still stops the timer and stages the result)
+  /\ ~(r = "connerror" /\ h \in {"stage_http_response1", "stage_http_response2"})
+  /\ ~(a = "rejected" /\ h \in {"stage_http_request", "stage_http_response1",
+                                 "stage_http_response2"})
 
 Init == /\ cfg \in [api : Details, http : Details, stats : BOOLEAN,
                     recorder : BOOLEAN, debug : BOOLEAN]
-        /\ resp \in Responses /\ srvtime \in SrvTimes
-        /\ pc = 1 /\ outcome = "running" /\ bareOutcome = Core(resp)
+        /\ resp \in Responses /\ srvtime \in SrvTimes /\ arg \in ArgShapes
+        /\ pc = 1 /\ outcome = "running" /\ bareOutcome = Core(resp, arg)
         /\ counted = 0 /\ hookRaised = FALSE
 
 Step == /\ pc <= Len(Hooks)
         /\ LET h == Hooks[pc] IN
-           IF Reached(h, resp) /\ HookRaises(h, cfg, resp, srvtime)
+           IF Reached(h, resp, arg) /\ HookRaises(h, cfg, resp, srvtime, arg)
            THEN /\ hookRaised' = TRUE /\ outcome' = "observer-exception"
                 /\ pc' = Len(Hooks) + 1
                 /\ counted' = counted
            ELSE /\ pc' = pc + 1
                 /\ counted' = IF h = "stop_timer" /\ cfg.stats
                               THEN counted + 1 ELSE counted
-                /\ outcome' = IF pc = Len(Hooks) THEN Core(resp) ELSE outcome
+                /\ outcome' = IF pc = Len(Hooks) THEN Core(resp, arg)
+                              ELSE outcome
                 /\ UNCHANGED hookRaised
-        /\ UNCHANGED <<cfg, resp, srvtime, bareOutcome>>
+        /\ UNCHANGED <<cfg, resp, srvtime, arg, bareOutcome>>
 
 Spec == Init /\ [][Step]_vars
 
